@@ -94,6 +94,8 @@ Cases ==
    \cup {Case("longName", "xpath", "", "", 0, 0, v) : v \in LongXPath}
    \cup {Case("manyDecimalFormats", "xsl", "", "", n, 0, "") : n \in {1, 9, 10, 11, 12, 23}}      \* around the size of a formatter cache
    \cup {Case("manyDefaultCounts", "xsl", "", "", n, 0, "") : n \in {1, 24, 25, 26, 49, 50, 51, 52, 120}}   \* around the size of a run-time pattern cache
+   \cup {Case("manyLiveStrings", "xsl", "", "", n, 0, v) : n \in {50, 99, 100, 101, 102, 103, 150, 400}, v \in {"scope", "recursion"}}   \* around the size of a string-buffer cache
+   \cup {Case("dotSegmentHref", "xsl", "", "", i, 0, v) : i \in 1..3, v \in {".inc/common.xsl", ".lookup.xml", "...", "..x", "a/.b/c.xsl", "./.hidden"}}
    \cup {Case("cdataBracket", "xsl", "", "", 0, 0, ToString(n) \o "/" \o ToString(k) \o "/" \o via) : n \in CdataLen, k \in CdataTail, via \in CdataVia}
    \cup {Case("paramExpression", "param", "", "", i, 0, "") : i \in 1..NParamExprs}
    \cup UNION {{Case("nonExpression", "xpath", "dropClose", n, i, 0, "") : i \in 1..M[n].closers} : n \in SeedsOf("xpath")}
